@@ -18,6 +18,7 @@ import TonVerif.Proofs.SrcArith2
 import TonVerif.Generated.ProofChecks
 import TonVerif.Proofs.SrcProof
 import TonVerif.Proofs.SrcProofCtor
+import TonVerif.Proofs.SrcLocate
 
 namespace TonVerif.Properties.C11
 open TonVerif TonVerif.Model TonVerif.Proofs.CellSpec TonVerif.Proofs.Prune TonVerif.Proofs.Merkle
@@ -1307,5 +1308,92 @@ example :
   decide +kernel
 
 end SrcFull
+
+/-! ## The TL-B walk on the REGENERATED parsers (builder `locsrc`)
+
+`Model.srcLocate c addr` (Model/LocateSrc.lean) is `ShardStateUnsplit.deserialize(c.begin_parse()).accounts[0][int(addr)].cell[0]` with the
+parser classes `ShardStateUnsplit`, `ShardAccounts`, `ShardAccount` (constructor argument `cell=` kept), `DepthBalanceInfo`, `Account`,
+`McStateExtra`, `ShardIdent`, `CurrencyCollection` ... re-translated from pytoniq_core/tlb/*.py on every run (Generated/LocateSrc.lean,
+Generated/TlbParsers{,Tx,Blk}.lean); `Model.srcOpaque` are the two Boolean parameters of the hand walk read from the regenerated `Account` /
+`McStateExtra`.  `WalkAgreeAt st addr` (Proofs/SrcLocate.lean): the regenerated walk and `locateAccount srcOpaque` agree on this cell -
+same "raises" verdict, located account cell with the same `is_special()` flag, data bits and subtree.
+
+FULL STATEMENT (`c11_src_walk`, NOT proved for all cells):   `∀ st addr, WalkAgreeAt st addr`.
+It is a closed statement about regenerated definitions, DECIDED by evaluation per instance (driver op `srcloc`): every run evaluates it on
+every state cell of the walk stream (≈ 250 synthetic shard states per seed: 1..8 accounts, every parser branch defective once, pruned off the
+path, spec-encoded `Account` / `McStateExtra` cells) and requires `eq` AND the library's verdict / located cell.  Proved below for all
+addresses: the cells on which `deserialize` returns `None` or stops at the tag.  Missing for the all-cells proof: (a) the HmLabel reader
+of the parser files (`(hmLabel n).dec`, the spec codec) = `Hashmap.deserializeHml` (C10, source-tied) on every bit string, (b) `Rd.augWalk` /
+`Rd.dictWalk` (fuel) = `parseAugP` / `Hashmap.parseEdge` (structural) given (a), (c) the straight-line header of `ShardStateUnsplit` and the
+`^[...]` group against the length tests of `locateAccount` / `stateRefGroup`. -/
+section SrcWalk
+open TonVerif.Proofs.SrcLocate TonVerif.Generated.ProofFull TonVerif.Proofs.SrcProof
+
+/-- the regenerated walk IS the hand model on every cell that is not an ordinary `shard_state#9023afe2` cell, for every address: a special
+cell (`ShardStateUnsplit.deserialize` returns `None`, `.accounts` raises), fewer than 32 data bits or another tag (BlockError): both raise.
+Partial: see the full statement above. -/
+theorem c11_src_walk_partial (st : PCell) (addr : Bytes)
+    (h : st.info.kind ≠ -1 ∨ st.info.bits.length < 32 ∨ st.info.bits.take 32 ≠ shardStateTag) : WalkAgreeAt st addr := by
+  by_cases hk : st.info.kind = -1
+  · rcases h with h | h
+    · exact absurd hk h
+    · exact walk_badtag st addr hk h
+  · exact walk_special st addr hk
+
+/-- non-vacuity, and one evaluated instance of the full statement: on the one-account state `exState` the regenerated walk returns the
+`account_none` cell, as the hand model does (`c11_locate_complete` example above); a Merkle-proof cell and an untagged cell meet the
+hypothesis of `c11_src_walk_partial`. -/
+example : (match srcLocate (tcell exState) exAddr with | some a => tcellBeq a (tcell exAcc) | none => false) = true ∧
+    exPruned.info.kind ≠ -1 ∧ exAcc.info.bits.length < 32 := by
+  refine ⟨by decide +kernel, by decide, by decide⟩
+
+/-- SOUNDNESS of the regenerated account check with the sub-parsers read from the source and the walk tied to the regenerated parsers.
+`hwalk`: the declared externals compose to the hand walk AT `srcOpaque` (no Boolean parameter left: `Account.deserialize` /
+`McStateExtra.deserialize` are the regenerated parsers); `hsrc`: the closed statement `c11_src_walk` for this address.  Acceptance then
+implies the conclusion of `c11_account_sound_lookup` AND that the REGENERATED `ShardStateUnsplit.deserialize(..).accounts[0][addr].cell[0]`
+returns, on the proved state cell, a cell with the flag, bits and subtree of the account cell whose level-0 hash was compared.
+Partial: `hsrc` is proved only by `c11_src_walk_partial` + evaluation; `hwalk` stays because a parsed value (`Tlb.Val`) carries cells
+without their cached hashes (`tcell` forgets them), so the located OBJECT cannot be read back from it. -/
+theorem c11_src_account_sound_full_partial {Shard ShardAccount : Type} (fromBoc : Bytes → Option (List PCell))
+    (deser : PCell → Option Shard) (get : Shard → Nat → Option ShardAccount) (cellOf : ShardAccount → PCell)
+    (proof blk addr : Bytes) (state : PCell) (hl : addr.length = 32) (hw : Bytes.WF addr)
+    (hwalk : ∀ st, ((deser st).bind fun sh => (get sh (natOfBE addr)).bind fun sa => (cellOf sa).refs[0]?) = locateAccount srcOpaque st addr)
+    (hsrc : ∀ st, WalkAgreeAt st addr)
+    (hacc : check_account_proof_False fromBoc deser get cellOf proof blk addr state = some ()) :
+    ∃ p0 p1 hdr st acc sh, fromBoc proof = some [p0, p1] ∧ checkProof p0 blk = true ∧ p0.refs[0]? = some hdr ∧
+      checkBlockHeaderProofState hdr blk = some sh ∧ p1.refs[0]? = some st ∧ st.info.getHash 0 = some sh ∧
+      checkProof p1 sh = true ∧ srcLocate (tcell st) addr = some (tcell acc) ∧
+      lookupShardAccount pcellView st (bytesToBits addr) = some acc ∧ acc.info.getHash 0 = some state.info.hash := by
+  obtain ⟨p0, p1, hdr, st, acc, sh, hb, h0, hhdr, hsh, hst, hs, h1, hloc, hh⟩ :=
+    c11_src_account_sound fromBoc deser get cellOf srcOpaque proof blk addr state hwalk hacc
+  refine ⟨p0, p1, hdr, st, acc, sh, hb, h0, hhdr, hsh, hst, hs, h1, ?_, (c11_locate_sound srcOpaque st addr acc hl hw hloc).2.2.2, hh⟩
+  have := hsrc st
+  rw [WalkAgreeAt, hloc] at this
+  exact this
+
+/-- COMPLETENESS counterpart: two roots that pass `check_proof`, a header committing to the state hash, the REGENERATED walk returning on
+the proved state cell, and the located account cell carrying the supplied state's hash make the regenerated `check_account_proof` return.
+Same two hypotheses `hwalk`, `hsrc` as `c11_src_account_sound_full_partial`. -/
+theorem c11_src_account_complete_full_partial {Shard ShardAccount : Type} (fromBoc : Bytes → Option (List PCell))
+    (deser : PCell → Option Shard) (get : Shard → Nat → Option ShardAccount) (cellOf : ShardAccount → PCell)
+    (proof blk addr sh : Bytes) (p0 p1 hdr st state : PCell) (tc : Tlb.Cell)
+    (hwalk : ∀ st, ((deser st).bind fun sh => (get sh (natOfBE addr)).bind fun sa => (cellOf sa).refs[0]?) = locateAccount srcOpaque st addr)
+    (hsrc : ∀ st, WalkAgreeAt st addr)
+    (hb : fromBoc proof = some [p0, p1])
+    (h0 : checkProof p0 blk = true) (hhdr : p0.refs[0]? = some hdr) (hsh : checkBlockHeaderProofState hdr blk = some sh)
+    (hst : p1.refs[0]? = some st) (hs : st.info.getHash 0 = some sh) (h1 : checkProof p1 sh = true)
+    (hloc : srcLocate (tcell st) addr = some tc)
+    (hh : ∀ acc, locateAccount srcOpaque st addr = some acc → acc.info.getHash 0 = some state.info.hash) :
+    check_account_proof_False fromBoc deser get cellOf proof blk addr state = some () := by
+  have hs' := hsrc st
+  rw [WalkAgreeAt, hloc] at hs'
+  cases hm : locateAccount srcOpaque st addr with
+  | none => rw [hm] at hs'; cases hs'
+  | some acc =>
+    rw [src_check_account_proof_eq fromBoc deser get cellOf srcOpaque proof blk addr state hwalk, hb, Option.bind_some,
+      c11_account_complete srcOpaque p0 p1 hdr st acc state blk addr sh h0 hhdr hsh hst hs h1 hm (hh acc hm)]
+    rfl
+
+end SrcWalk
 
 end TonVerif.Properties.C11
